@@ -65,6 +65,16 @@ theorem XL_binop_no_ub (fx : VMOps.Fixes) (hd : fx.divMin = true) (hs : fx.shift
     (VMOps.step fx (opOf op) [emb ρ a, emb ρ b]).isUb = false :=
   agree_not_ub (binop_agree fx ρ hd hs op a b wa wb)
 
+/-- **The code as first read** (any state of the repair flags): on the common fragment `VMOps` is undefined exactly
+    on `INT64_MIN / -1`, `INT64_MIN % -1` while `divMin` is off, and on `<<` / `>>` by a count outside `0..63`
+    (as an unsigned number) while `shiftCount` is off — the inputs on which `Lang.binop` returns the repaired
+    code's value (`-x` wrapped, `0`, the count masked to six bits).  Everywhere else the two agree whatever the flags. -/
+theorem XL_binop_ub_iff (fx : VMOps.Fixes) (ρ : Content) (op : Lang.BinOp) (a b : Lang.Val) (wa : WF a) (wb : WF b) :
+    (VMOps.step fx (opOf op) [emb ρ a, emb ρ b]).isUb = true ↔
+      (fx.divMin = false ∧ (op = .div ∨ op = .mod) ∧ a = .int VMOps.minInt ∧ b = .int VMOps.negOne) ∨
+      (fx.shiftCount = false ∧ (op = .shl ∨ op = .shr) ∧ ∃ x y, a = .int x ∧ b = .int y ∧ 64 ≤ y.toNat) :=
+  binop_ub_iff fx ρ op a b wa wb
+
 /-- results of operators satisfy the invariant again (the agreement composes along an expression) -/
 theorem XL_binop_wf (op : Lang.BinOp) (a b r : Lang.Val) (wa : WF a) (wb : WF b)
     (h : Lang.binop op a b = .ok r) : WF r :=
@@ -172,6 +182,7 @@ example : VMOps.step VMOps.Fixes.all (opOf .div) [.int Lang.intMin, .int (-1)] =
 example : Lang.binop .shl (.int 1) (.int 65) = .ok (.int 2) := by rfl
 /-- without the repair the `VMOps` side is undefined: the hypotheses `hd`, `hs` are needed -/
 example : (VMOps.step VMOps.Fixes.none (opOf .shl) [.int 1, .int 65]).isUb = true := by rfl
+example : (VMOps.step VMOps.Fixes.none (opOf .mod) [.int VMOps.minInt, .int VMOps.negOne]).isUb = true := by rfl
 example : ∃ e, Lang.binop .add (.int 7) .nil = .error e ∧ lcls e = .type := ⟨_, rfl, rfl⟩
 example : VMOps.step VMOps.Fixes.all (opOf .add) [.int 7, .nil] = .err .incompatibleOperator .nil := by rfl
 example : Lang.binop .ne (.chr 200) (.int (-56)) = .ok (.int 0) := by rfl
